@@ -9,9 +9,11 @@ if ! git apply --recount "$patch" 2>/dev/null; then
 fi
 git diff --stat | tail -1
 cd /verif
+rm -rf /verif/.work/_ev_backup && cp -a /verif/evidence /verif/.work/_ev_backup
 for p in "$@"; do
   ./check "$p" --tier quick | grep -v "^unit\|^kani" | head -8
   echo "rc=${PIPESTATUS[0]} ($p)"
 done
 git -C /repo checkout -- .
+rm -rf /verif/evidence && mv /verif/.work/_ev_backup /verif/evidence
 git -C /repo status --porcelain --untracked-files=no
